@@ -71,6 +71,11 @@ pub fn slot_names(sk: Skel) -> Vec<String> {
 /// Render a choice vector.  Returns None when a slot deviates although it has no effect
 /// (so that every rendered vector is a distinct document).
 pub fn render(sk: Skel, v: &[usize]) -> Option<Doc> {
+    render_opt(sk, v, false)
+}
+
+/// `unique`: the simplest first line "v" becomes "v<p><f>" so that fields and paragraphs are distinguishable.
+pub fn render_opt(sk: Skel, v: &[usize], unique: bool) -> Option<Doc> {
     let mut i = 0usize;
     let mut next = || {
         let x = v[i];
@@ -112,11 +117,12 @@ pub fn render(sk: Skel, v: &[usize]) -> Option<Doc> {
             // when something follows on the line; ":\t" / ":  " with an empty first line is trailing whitespace (allowed)
             text.push_str(&name);
             text.push_str(COLONS[co]);
-            text.push_str(FIRSTS[fi]);
+            let first_owned = if unique && fi == 0 { format!("v{}{}", p, f) } else { FIRSTS[fi].to_string() };
+            text.push_str(&first_owned);
             text.push('\n');
             let mut lines: Vec<&str> = vec![];
-            if !FIRSTS[fi].is_empty() {
-                lines.push(FIRSTS[fi]);
+            if !first_owned.is_empty() {
+                lines.push(&first_owned);
             }
             for (c, ind) in [(c1, i1), (c2, i2)] {
                 if c != 0 {
